@@ -90,7 +90,13 @@ def build(v, sid):
         {"name": "d/d.go", "src": d_src(v)}]}]
     # u: uses d; declares its own annotated type and an API that hands out d.T
     # e starts exactly like d (same package-name length): its first declaration has the same offset in its file as d's
-    pkgs.append({"path": "m/e", "name": "e", "files": [{"name": "e/e.go", "src": "package e\n\n// PT0 is restricted to its package.\n// @packageonly\ntype PT0 struct{ X int }\n"}]})
+    # (both packages have a first file a_ops.go of the same size, so that the offsets agree in the per-package file sets of go vet too)
+    ehdr = ("// @ignore %s\n" % v["dign"]) if v.get("dign") else ""
+    e_ops = ehdr + "package e\n\n// Purge is for e only\n// @packageonly\nfunc (p PT0) Purge() {}\n"
+    assert len(e_ops) == len(pkgs[0]["files"][0]["src"]), (len(e_ops), len(pkgs[0]["files"][0]["src"]))
+    pkgs.append({"path": "m/e", "name": "e", "files": [
+        {"name": "e/a_ops.go", "src": e_ops},
+        {"name": "e/e.go", "src": ehdr + "package e\n\n// PT0 is restricted to its package.\n// @packageonly\ntype PT0 struct{ X int }\n"}]})
     ls = ["package u", "", "import ("] + (['\t"unsafe"', ""] if v.get("unsafe") else []) + ['\t"m/d"', '\t"m/e"', ")", ""] + \
          (["var _ = unsafe.Sizeof(0)", ""] if v.get("unsafe") else []) + ["// UT is u's own immutable type.", "// @immutable", "type UT struct{ X int }", "",
           "// Get hands out a d.T.", "func Get() *d.T { return d.NewT() }", "", "// RT re-exports d's type under a name of u.", "type RT = d.T", "", "// A3u claims an interface it does not implement.", "// @implements d.I",
